@@ -1,14 +1,16 @@
 #!/bin/bash
 # usage: try_seed.sh <property> <patch.diff> [tier]; applies the change to /repo, runs the property's check, undoes it straight afterwards
 PROP=$1; PATCH=$2; TIER=${3:-quick}
-cd /verif
-git -C /repo apply "$PATCH" || { echo "patch does not apply"; exit 2; }
+REPO=${MSIM_REPO:-/repo}
+VERIF=$(cd "$(dirname "$0")/.." && pwd)
+cd "$VERIF"
+git -C "$REPO" apply "$PATCH" || { echo "patch does not apply"; exit 2; }
 START=$(date +%s)
 ./check run $PROP --tier $TIER > /tmp/try_seed_$$.log 2>&1; RC=$?
 END=$(date +%s)
-git -C /repo checkout -- .
+git -C "$REPO" checkout -- .
 echo "property=$PROP exit=$RC wall=$((END-START))s"
 grep -E "^VIOLATION|^  signature|^  detail|^KNOWN|^INFO|harness error" /tmp/try_seed_$$.log | cut -c1-260 | head -12
 rm -f /tmp/try_seed_$$.log
 # evidence and replays written during a seeded run do not describe the unchanged tree
-git -C /verif checkout -- evidence 2>/dev/null
+git -C "$VERIF" checkout -- evidence 2>/dev/null
